@@ -12,8 +12,10 @@ check of `schema/mod.rs` that establishes it):
 * every field's base type is a built-in scalar or a vertex type
   (`check_type_and_property_and_edge_invariants`, else `UnknownPropertyOrEdgeType`);
 * no vertex type and no field is called `__typename` (`ReservedTypeName`, `ReservedFieldName`);
-* the parameter names of a field are distinct — **not checked by `Schema::new`** (N-5): it is an
-  assumption about the schema, and `paramDuplicate_witness` shows what happens without it;
+* the parameter names of a field are distinct — checked by `Schema::new` since the repair of N-5 /
+  F-C10-5 (`DuplicateFieldParameterDefinition`; `Proofs/FrontendSchemaParse.lean`:
+  `parse_accepts_paramsDistinct`); `paramDuplicate_witness` shows what happens without it (before
+  the repair it was an assumption about the schema that `Schema::new` did not establish);
 * the query type is a vertex type and all its fields are edges
   (`check_root_query_type_invariants`, `PropertyFieldOnRootQueryType`);
 * every field of every type has a single origin, and the origin type has the field
